@@ -151,6 +151,8 @@ def c06(tier, seed):
         Step("fam_shared", "thr-asan", 0, 80000),
         Step("fam_when", "fib-asan", 20000, 400000, cells="shared,mixed"),
         Step("fam_wait", "fib-asan", 20000, 400000, cells="shared,mixed"),
+        Step("fam_coro", "fib-asan", 20000, 400000, cells="/live"),
+        Step("fam_core", "fib-asan", 8000, 200000, cells="shared-set-throws"),
     ]
     return run_steps("C06", tier, seed, steps,
                      "at least two observer operations fired on the same SharedFuture (observers register before, "
